@@ -71,6 +71,7 @@ func TestMain(m *testing.M) {
 		os.Exit(2)
 	}
 	code := m.Run()
+	removeStrayDirs()
 	os.Chdir("/")
 	os.RemoveAll(root)
 	os.Exit(code)
